@@ -95,7 +95,7 @@ def generate(rng, tier):
                         't_none': with_t and g.chance(0.1),
                         'it': sel, 'vars': vsel,
                         'rl': g.weighted([(0, 5), (1, 3), (2, 1), (10, 1)]),
-                        'default_it': False})
+                        'default_it': False, 'it_array': g.chance(0.4)})
             saved_its += its
         else:
             pool = sorted(set(saved_its)) or [0]
@@ -214,7 +214,8 @@ def execute(run):
             its = list(op['its'])
             data = {}
             if op['with_it']:
-                data['it'] = list(its)
+                data['it'] = (np.array(its) if op.get('it_array')
+                              else list(its))
             if op['with_t']:
                 data['t'] = None if op['t_none'] else [
                     0.25 * iv + 100.0 * (opi + 1) for iv in its]
